@@ -32,5 +32,5 @@ package max
 //@ o-ensures: [default-when-empty] len(list) == 0 ==> r == def
 //@ o-ensures: [an-element] len(list) > 0 ==> exists j int :: 0 <= j && j < len(list) && r == list[j]
 //@ o-ensures: [extremal] forall j int :: 0 <= j && j < len(list) ==> !(CmpTop(elem(typ), list[j], r) > 0)
-//@ o-loop: 1: invariant exists k int :: 0 <= k && k <= $i && m == old(list)[k]
-//@ o-loop: 1: invariant forall k int :: 0 <= k && k <= $i ==> !(CmpTop(elem(typ), old(list)[k], m) > 0)
+//@ o-loop: 1: invariant exists k int :: 0 <= k && k <= $i && $out0 == old(list)[k]
+//@ o-loop: 1: invariant forall k int :: 0 <= k && k <= $i ==> !(CmpTop(elem(typ), old(list)[k], $out0) > 0)
